@@ -70,6 +70,8 @@ func exprText(e ast.Expr) string {
 		return exprText(x.X) + "." + x.Sel.Name
 	case *ast.StarExpr:
 		return "*" + exprText(x.X)
+	case *ast.BasicLit:
+		return x.Value
 	case *ast.IndexExpr:
 		return exprText(x.X) + "[" + exprText(x.Index) + "]"
 	case *ast.CallExpr:
